@@ -168,6 +168,7 @@ type Ctx struct {
 
 	curUnit  atomic.Int64
 	curStart atomic.Int64 // process CPU time (ns) when the unit started, +1; 0 = idle
+	curWall  atomic.Int64 // wall clock (unix ns) when the unit started
 	curDesc  atomic.Value
 	limit    time.Duration
 	progress *os.File
@@ -236,6 +237,7 @@ func (c *Ctx) Unit(desc func() string) bool {
 	d := desc()
 	c.curDesc.Store(d)
 	c.curUnit.Store(idx)
+	c.curWall.Store(time.Now().UnixNano())
 	c.curStart.Store(cpuNanos() + 1)
 	if c.progress != nil {
 		rec := fmt.Sprintf("%d\t%s", idx, d)
@@ -431,6 +433,7 @@ func workerMain(args []string) {
 	go func() {
 		var ms runtime.MemStats
 		tick := 0
+		var lastStart, unitTicks int64
 		for {
 			time.Sleep(50 * time.Millisecond)
 			tick++
@@ -439,8 +442,16 @@ func workerMain(args []string) {
 				continue
 			}
 			why := ""
-			if time.Duration(cpuNanos()-st) > c.limit {
+			used := time.Duration(cpuNanos() - st)
+			if st != lastStart {
+				lastStart, unitTicks = st, 0
+			}
+			unitTicks++ // time as this process experiences it (a frozen process does not tick)
+			if used > c.limit {
 				why = fmt.Sprintf("no progress for %v of CPU time", c.limit)
+			} else if unitTicks > 900 && used < 2*time.Second {
+				// neither finishing nor burning CPU for 45 s: blocked (a lock that is never released, a read that never returns)
+				why = "blocked: 45 s without finishing and with almost no CPU time used"
 			} else if tick%4 == 0 {
 				runtime.ReadMemStats(&ms)
 				if ms.HeapAlloc > 2<<30 {
@@ -655,6 +666,8 @@ func checkMain(args []string) {
 			kind = "memory"
 		} else if strings.HasPrefix(h.why, "no progress") {
 			kind = "time"
+		} else if strings.HasPrefix(h.why, "blocked") {
+			kind = "blocked"
 		}
 		addViol(total.Viols, "HANG/CRASH "+kind, h.desc, map[string]any{"kind": "hang", "check": id, "unit": h.unit, "desc": h.desc, "why": h.why, "tier": tier})
 	}
